@@ -17,7 +17,9 @@ import "fmt"
 //   - a lookup of a listed provider returns the listed record and asks no source; a lookup
 //     that asked every source returns the freshest record found (or none); a repeated
 //     lookup of a provider found nowhere asks no source (within the time-to-live);
-//   - a lookup changes nothing about other providers.
+//   - a lookup changes nothing about other providers;
+//   - every record handed out (Get, List) is, field for field, one of the records a source
+//     reported for that provider (the harness identifies records by content: tag 0 = none).
 //
 // It returns a failure class ("" when the history is fine), the index of the failing step
 // and a description.
@@ -28,12 +30,13 @@ func Oracle(nsrc int, steps []Step) (string, int, string) {
 		missSince int64
 		maxGiven  int64
 		negAt     int64
+		given     map[int]bool // versions (tags) the sources have reported for it
 	}
 	ps := map[int]*pst{}
 	get := func(pid int) *pst {
 		p := ps[pid]
 		if p == nil {
-			p = &pst{missSince: -1, negAt: -1}
+			p = &pst{missSince: -1, negAt: -1, given: map[int]bool{}}
 			ps[pid] = p
 		}
 		return p
@@ -72,12 +75,18 @@ func Oracle(nsrc int, steps []Step) (string, int, string) {
 		// what the responding sources reported in this pass
 		reported := map[int]int64{}
 		cancelled := false
+		for _, fo := range st.Fetches {
+			if fo.Kind == "found" {
+				get(fo.Rec.Pid).given[fo.Rec.Tag] = true
+			}
+		}
 		for _, so := range st.Srcs {
 			if so.Kind == "cancelled" {
 				cancelled = true
 			}
 			if so.Kind == "reports" {
 				for _, r := range so.Reports {
+					get(r.Pid).given[r.Tag] = true
 					if t, ok := reported[r.Pid]; !ok || eff(r) > t {
 						reported[r.Pid] = eff(r)
 					}
@@ -85,6 +94,17 @@ func Oracle(nsrc int, steps []Step) (string, int, string) {
 			}
 		}
 
+		// content: whatever is handed out is one of the reported records of that provider
+		if list != nil {
+			for pid, r := range list {
+				if r.Tag == 0 || !get(pid).given[r.Tag] {
+					return "record-not-as-reported", si, fmt.Sprintf("List returns for provider %d a record (time %d) that is not, field for field, any record a source reported for it", pid, r.Time)
+				}
+			}
+		}
+		if st.Kind == "get" && st.Got != nil && (st.Got.Tag == 0 || !get(st.Pid).given[st.Got.Tag]) {
+			return "record-not-as-reported", si, fmt.Sprintf("Get returns for provider %d a record (time %d) that is not, field for field, any record a source reported for it", st.Pid, st.Got.Time)
+		}
 		switch st.Kind {
 		case "refresh":
 			for i, so := range st.Srcs {
